@@ -230,7 +230,9 @@ class Base:
                 relocatable_annotations=relocatable_annotations,
             )
             self._hash = hash_
-            cls._hash_cache[hash_] = self
+            # another thread may have built the same node since the lookup above: whoever registered first wins, so that
+            # structurally equal live nodes stay one object
+            self = cls._hash_cache.setdefault(hash_, self)
         # else:
         #     if not self._check_args_same(a_args) or self.op != op or self.annotations != annotations:
         #         raise Exception("CRAP -- hash collision")
@@ -318,9 +320,7 @@ class Base:
             )
 
             result._hash = h
-            cache[h] = result
-
-            return result
+            return cache.setdefault(h, result)  # (as in __new__: whoever registered first wins)
 
         all_operations = operations.leaf_operations_symbolic_with_union
         # special case: if self is one of the args, we do not copy annotations over from self since child
